@@ -18,7 +18,13 @@ def ok_value(case, impl):
 FLD_MSG_RULE = ("field histories over generated coherent specs: every cell kind x encoding x 43 prefixers x padding at boundary lengths 0,1,max-1,max "
                 "(and max+1, where Pack must fail), random primitives with large lengths, composites of all four modes nested to depth 3 (2 values each), "
                 "each with pack, round trip with trailing bytes, re-pack and 1-4 mutated encodings; message histories over bitmaps with 1..16-byte blocks in both "
-                "expansion modes and boundary field numbers: populate, pack, unpack fresh and used, unset, mutants, truncation")
+                "expansion modes and boundary field numbers: populate, pack, unpack fresh and used, unset, mutants, truncation; the same composite object used twice "
+                "and tagged bodies in which every element occurs twice")
+
+TRK_RULE = ("; track fields: 400 (thorough 8000) x Track1/2/3 over 6 encodings x 7 prefix families x LL/LLL/L, default and track2 packer, well-formed components (3 in 4) and "
+            "malformed ones (long PAN, '?', white space, bad separator, absent expiry/service code, FixedLength): populate-pack-String-filter-observe, round trip with "
+            "trailing bytes, mutated bytes, the same object used twice (also with an empty track), SetBytes with impossible months")
+
 
 
 def nt_ok(c, i):
@@ -63,9 +69,9 @@ PROPS = {
         "rule": "Describe masking through the real Describe on the shipped specs for 600 (thorough 12000) PAN / PIN-block values of every length 0..24; 400 (thorough 8000) generated "
                 "message specs, each with a high-entropy 12-19 character secret: set correct and with one corrupted character, packed, JSON-encoded, spliced into valid wire "
                 "messages at random offsets / in front, mutated, sent as JSON with wrong types, unmarshalled into int/int64/string/[]byte and pointer targets, marshalled under "
-                "wrong types; the oracle greps every error text and Describe output of the library for the secret; non-trivial = distinct secret-bearing case",
+                "wrong types; the oracle greps every error text and Describe output of the library for the secret; non-trivial = distinct secret-bearing case" + TRK_RULE,
         "trusted_base": MODEL_TB + ["translator: Gen/ErrorSites.v is a syntactic (go/ast) catalogue of error construction sites and of quoting-error flows; its argument classification is trusted and cross-checked by the dynamic secret search"],
-        "assumptions": ["track fields (Track1/2/3) and their Describe filters are not modelled: covered by the oracle only when such specs are used",
+        "assumptions": ["track fields and their filters are modelled on ASCII data (strings.TrimSpace on Unicode white space is not modelled)",
                         "spec import/export errors (specs/) speak about spec documents, not message contents"],
     },
     "C13": {
@@ -97,7 +103,7 @@ PROPS = {
     "C15": {
         "topics": ["hist", "msg", "fld", "trk"],
         "nontrivial": lambda c, i: "pack" in c and "ok x" in i,
-        "rule": HIST_RULE + "; plus the histories of C01; each message is encoded (Pack, JSON, Describe) repeatedly, cloned, the clone and the original are mutated in turn, "
+        "rule": HIST_RULE + TRK_RULE + "; plus the histories of C01; each message is encoded (Pack, JSON, Describe) repeatedly, cloned, the clone and the original are mutated in turn, "
                 "the population prefix is replayed in reverse order, primitive values are handed over as slices with 20 sentinel bytes of spare capacity; non-trivial = distinct history that packs",
         "trusted_base": MODEL_TB,
         "assumptions": ["messages whose MTI was never set pack without one and cannot be cloned: outside the property"],
@@ -105,7 +111,7 @@ PROPS = {
     "C01": {
         "topics": ["fld", "msg", "trk"],
         "nontrivial": lambda c, i: "(set" in c and "| ok x" in i.replace("ok | ", "| "),
-        "rule": FLD_MSG_RULE + "; non-trivial = distinct history that populates a field or message and packs it successfully",
+        "rule": FLD_MSG_RULE + TRK_RULE + "; non-trivial = distinct history that populates a field or message and packs it successfully",
         "trusted_base": MODEL_TB,
         "assumptions": ["coherent specs and value domains as in DESIGN.md section 2", "Go slices are shorter than 2^63 bytes"],
     },
@@ -127,7 +133,7 @@ PROPS = {
     "C04": {
         "topics": ["adv", "fld", "msg", "enc", "pref", "trk"],
         "nontrivial": lambda c, i: ("unpack" in c or ".dec" in c),
-        "rule": FLD_MSG_RULE + "; plus the decoder-level adversarial cases of C06/C07 (BER long forms with 0..127 length bytes, lengths >= 2^31 and >= 2^63, "
+        "rule": FLD_MSG_RULE + TRK_RULE + "; plus the decoder-level adversarial cases of C06/C07 (BER long forms with 0..127 length bytes, lengths >= 2^31 and >= 2^63, "
                 "negative lengths, every short prefix string); every implementation run is a child process under ulimit -v and a timeout; non-trivial = distinct decode case",
         "trusted_base": MODEL_TB,
         "assumptions": ["wall-clock time and allocation are runtime behaviour: measured by the harness, not proved"],
@@ -152,7 +158,7 @@ PROPS = {
     "C10": {
         "topics": ["fld", "msg", "hist", "trk"],
         "nontrivial": lambda c, i: c.count("(unpack") >= 1 and ("(set" in c or c.count("(unpack") >= 2),
-        "rule": FLD_MSG_RULE + "; the oracle replays the history before the last unpack on one object and compares value, re-pack and JSON with a fresh object; "
+        "rule": FLD_MSG_RULE + TRK_RULE + "; the oracle replays the history before the last unpack on one object and compares value, re-pack and JSON with a fresh object; "
                 "non-trivial = distinct history with prior state followed by an unpack",
         "trusted_base": MODEL_TB,
         "assumptions": [],
